@@ -260,7 +260,7 @@ def mut_event(mu):
 def configs(ctx):
     q = [("full", 1, 1, False), ("full", 1, 2, False), ("full", 2, 1, False), ("full", 2, 2, False),
          ("full", 1, 1, True), ("delta", 1, 1, False), ("delta", 2, 1, False), ("meta", 2, 1, False),
-         ("compound", 1, 1, False)]
+         ("meta", 3, 1, False), ("compound", 1, 1, False)]
     t = q + [("full", 3, 1, False), ("full", 0, 2, False), ("full", 2, 3, False), ("full", 3, 3, True),
              ("full", 2, 1, True), ("full", 1, 2, True), ("delta", 3, 1, False), ("delta", 2, 1, True),
              ("meta", 1, 1, False), ("meta", 3, 1, True), ("compound", 1, 2, False)]
@@ -379,6 +379,10 @@ def run(ctx):
                 # its first write (an empty temp file), so only the latter is run
                 if ctx.thorough or mu["op"] != "chmod":
                     jobs.append((cfg, n, "kill", j, mu, "%s:error=EIO:signal=SIGKILL:when=%d" % (s.name, s.ordinal), rep))
+                    if cfg["mode"] == "meta" and mu["op"] == "rename" and rep == 0:
+                        # the sidecars are renamed in map order: a few more samples of which ones were installed
+                        for extra in (10, 11, 12):
+                            jobs.append((cfg, n, "kill", j, mu, "%s:error=EIO:signal=SIGKILL:when=%d" % (s.name, s.ordinal), extra))
                 if mu["op"] in ("rename", "unlink"):
                     jobs.append((cfg, n, "fault", j, mu, "%s:error=EIO:when=%d" % (s.name, s.ordinal), rep))
     ctx.log("configurations: %d, supervised runs: %d" % (len(cfgs), len(jobs)))
@@ -421,8 +425,17 @@ def run(ctx):
             inconclusive.append("%s %s@%d (%s): %s" % (n, kind, j, inject, why))
             continue
         done.append((cfg, kind, j, r))
-    ctx.log("supervised runs done, loading %d surviving directories" % (len(done) + len(cfgs)))
-    allr = [refs[cname(c)] for c in cfgs] + [x[3] for x in done]
+    # recovery: after a killed metadata update the same update is run again, to completion, on a copy of
+    # the surviving directory (the next indexing job); success must mean the complete new index
+    recov = {}
+    for cfg, kind, j, r in done:
+        if kind == "kill" and cfg["mode"] == "meta":
+            d2 = r["dir"].rstrip("/") + "_recover"
+            shutil.copytree(r["dir"], d2)
+            rc2, out2, err2 = run_plain(binp, rn.cfg_env(cfg, d2, "build"))
+            recov[id(r)] = {"rc": rc2, "dir": d2, "view": None}
+    ctx.log("supervised runs done, loading %d surviving directories" % (len(done) + len(cfgs) + len(recov)))
+    allr = [refs[cname(c)] for c in cfgs] + [x[3] for x in done] + list(recov.values())
     views = load_views(pool, binp, rn.load_env, "C12VIEW", [r["dir"] for r in allr])
     for r in allr:
         r["view"] = views[r["dir"]]
@@ -432,6 +445,13 @@ def run(ctx):
         emit(cfg, "ref", 0, refs[cname(cfg)])
     for cfg, kind, j, r in done:
         emit(cfg, kind, j, r)
+        rv = recov.get(id(r))
+        if rv is not None and rv["rc"] in (0, 3):
+            ev = end_event("done", rv["rc"], rv["view"])
+            ev["ev"] = "recover"
+            trace.append(ev)
+            scen[-1]["end"] = len(trace)
+            scen[-1]["recover"] = rv
     pool.shutdown()
     if len(inconclusive) > max(2, len(jobs) // 20):
         raise vk.Inconclusive("%d of %d supervised runs did not hit the addressed syscall: %s" % (
@@ -466,7 +486,7 @@ def run(ctx):
             sig = "C12:fault:success-not-installed%s" % sfx
         else:
             sig = "C12:%s%s" % (why, sfx)
-        muts = [(x["op"], "%s%d" % (x["f"]["k"], x["f"]["i"]), x["res"]) for x in trace[sc["start"]:sc["end"] - 1]]
+        muts = [(x["op"], "%s%d" % (x["f"]["k"], x["f"]["i"]), x["res"]) for x in trace[sc["start"]:sc["end"] - 1] if x["ev"] == "mut"]
         groups.setdefault(sig, []).append({
             "config": cfg, "run": sc["run"], "point": sc["point"], "why": why, "expected": exp,
             "mutations": muts, "rejected_event": {k: v for k, v in e.items() if k != "view"},
